@@ -210,15 +210,32 @@ Section RunApi.
   Definition ns_cmp (a b : doc) : comparison := str_compare (ns_text a) (ns_text b).
 
   (* runs of consecutive `drop` events (one dropDatabase) are sorted; runs of
-     consecutive `delete` events are grouped by namespace *)
-  Fixpoint canon_events (l : list doc) (drops : list string) (dels : list doc) : list string :=
+     consecutive `delete` events are grouped by namespace.  The drop events of
+     a dropDatabase come in Go map order, and a later retention pass may cut
+     such a run in the middle: the collection names of a drop run that ends in
+     its dropDatabase event are not compared (anonymised on both sides). *)
+  Definition is_dropdb (d : doc) : bool :=
+    match lookup d "operationType" with Some (VString "dropDatabase") => true | _ => false end.
+
+  Definition anon_coll (d : doc) : doc :=
+    map (fun kv => if String.eqb (fst kv) "ns"
+                   then match snd kv with
+                        | VDoc ns => (fst kv, VDoc (map (fun e => if String.eqb (fst e) "coll" then (fst e, VString "*") else e) ns))
+                        | v => (fst kv, v)
+                        end
+                   else kv) d.
+
+  Definition flush_drops (anon : bool) (drops : list doc) : list string :=
+    stable_sort ev_cmp (map (fun d => show_doc (strip_event (if anon then anon_coll d else d))) drops).
+
+  Fixpoint canon_events (l : list doc) (drops : list doc) (dels : list doc) : list string :=
     let flush_dels := map (fun d => show_doc (strip_event d)) (stable_sort ns_cmp (rev dels)) in
     match l with
-    | [] => (stable_sort ev_cmp drops ++ flush_dels)%list
+    | [] => (flush_drops false drops ++ flush_dels)%list
     | d :: t =>
-        if is_drop d then (flush_dels ++ canon_events t (show_doc (strip_event d) :: drops) [])%list
-        else if is_delete d then (stable_sort ev_cmp drops ++ canon_events t [] (d :: dels))%list
-        else (stable_sort ev_cmp drops ++ flush_dels ++ show_doc (strip_event d) :: canon_events t [] [])%list
+        if is_drop d then (flush_dels ++ canon_events t (d :: drops) [])%list
+        else if is_delete d then (flush_drops false drops ++ canon_events t [] (d :: dels))%list
+        else (flush_drops (is_dropdb d) drops ++ flush_dels ++ show_doc (strip_event d) :: canon_events t [] [])%list
     end.
 
   Definition oplog_docs (cat : catalog) : list sdoc := c_docs (oplog_of cat).
